@@ -77,10 +77,32 @@ def circshift(ctx, R="R-C20-circshift-copy"):
               "with copy=True the input array can still be modified in place (%s)" % ", ".join(sorted({w.how for w in ws if True in w.flags})))
     # in-place branch also requires complex128 input
     pm = astq.parents(f)
+    from .. import scenario as SC
+    evg = SymEval(prog, f).run()
     for w in ws:
         guards = [astq.text(a.test) for a in astq.ancestors(pm, w.stmt) if isinstance(a, ast.If)]
-        ok = any("complex128" in g and "dtype" in g for g in guards)
-        ctx.check(ok, R, f, w.stmt, "the in-place product is reached only for a complex128 input (no lossy cast into the caller's array)",
+        # scenario: copy is False and the input is NOT complex128 - the statement must be unreachable
+        try:
+            orig = [n_ for n_ in f.body_nodes() if getattr(n_, "lineno", -1) == getattr(w.stmt, "lineno", -2) and type(n_) is type(w.stmt)]
+            g = evg.guard_of(orig[0] if orig else w.stmt)
+        except Exception:
+            g = None
+        if g is None:
+            ctx.error(R, "cannot decide under which condition the in-place product runs (guards: %s)" % guards)
+            continue
+
+        def fn(x):
+            if x.op == "sym" and x.args[0] == "copy":
+                return S.FALSE
+            if x.op == "cmp" and x.args[0] in ("==", "!=") and {S.show(x.args[1]), S.show(x.args[2])} & {"filt.dtype"} and \
+                    {S.show(x.args[1]), S.show(x.args[2])} & {"numpy.complex128", "np.complex128"}:
+                return S.lift(x.args[0] == "!=")
+            return None
+        gs = SC.transform(g, fn)
+        if not gs.is_const:
+            ctx.error(R, "cannot decide under which condition the in-place product runs: %s" % S.show(gs)[:120])
+            continue
+        ctx.check(not S.truthy(gs), R, f, w.stmt, "the in-place product is reached only for a complex128 input (no lossy cast into the caller's array)",
                   "in-place product is not guarded by the dtype test (guards: %s)" % guards)
     D = S.sym("D")
     spec_ramp = None
